@@ -22,7 +22,7 @@
 EXTENDS Integers, Sequences, FiniteSets, TLC, SequencesExt, FiniteSetsExt, Functions
 
 Atoms(G) == 1..G.n
-EdgeSet(G) == {<<a, b>> \in Atoms(G) \X Atoms(G) : a < b /\ b \in G.adj[a]}
+EdgeSet(G) == UNION {{<<a, b>> : b \in {x \in G.adj[a] : x > a}} : a \in Atoms(G)}
 NumEdges(G) == Cardinality(EdgeSet(G))
 Colour(G, a) == <<G.z[a], G.mass[a], G.rad[a]>>        \* the "invariant code"
 
@@ -32,11 +32,12 @@ WellFormed(G) ==
   /\ \A a, b \in Atoms(G) : (b \in G.adj[a]) <=> (a \in G.adj[b])
 
 IsPerm(f, n) == DOMAIN f = 1..n /\ {f[i] : i \in 1..n} = 1..n
-InvPerm(f, n) == [j \in 1..n |-> CHOOSE i \in 1..n : f[i] = j]
+\* the inverse of a permutation, by sorting the pairs <<f[i], i>> (n log n; CHOOSE per element would be quadratic)
+InvPerm(f, n) == LET s == SetToSortSeq({<<f[i], i>> : i \in 1..n}, LAMBDA x, y : x[1] < y[1]) IN TLCEval([j \in 1..n |-> s[j][2]])
 
 \* G with atom a renamed to f[a]  (a permutation of 1..n); all per-atom data moves along
 Apply(G, f) ==
-  LET inv == TLCEval(InvPerm(f, G.n))
+  LET inv == InvPerm(f, G.n)
       Mv(col) == [l \in 1..G.n |-> col[inv[l]]]
       Lo(a, b) == IF f[a] < f[b] THEN f[a] ELSE f[b]
       Hi(a, b) == IF f[a] < f[b] THEN f[b] ELSE f[a]
